@@ -110,6 +110,7 @@ static int g_nb_tasks;         /* termination detector's task count */
 static int g_sched_unknown;
 static int g_ht_removed, g_ht_removed_ok;
 static int vp_slot = -1;       /* next task object to hand out */
+static int vp_auto_slot = 4;   /* first object handed out when the real code allocates on its own */
 static int g_fake_writer;      /* the variadic fake-writer path was requested */
 
 static int vp_idx(const void *p)
@@ -146,6 +147,7 @@ static void *vp_tm_alloc(parsec_thread_mempool_t *tm)
 {
     (void)tm;
     int k = vp_slot; vp_slot = -1;
+    if(k < 0) k = vp_auto_slot++;          /* allocations made by the real code itself (flush tasks) */
     VASSUME(k >= 0 && k < NTASK);
     for(int i = 0; i < NTASK; i++) if(i == k) {
         VT(i).t.super.super.super.obj_reference_count = 1;      /* as left by the mempool */
@@ -195,6 +197,13 @@ void *parsec_hash_table_remove(parsec_hash_table_t *ht, parsec_key_t key)
     g_ht_removed++;
     for(int i = 0; i < NTILE; i++) if(ht == &TILE_HT && key == (parsec_key_t)TL(i).key) { g_ht_removed_ok++; return &TL(i); }
     return NULL;
+}
+/* iteration over the tile table (parsec_dtd_data_flush_all): every tile object the harness put "in the table" */
+static int vp_in_table[NTILE];
+void parsec_hash_table_for_all(parsec_hash_table_t *ht, parsec_hash_elem_fct_t fct, void *cb_data)
+{
+    if(ht != &TILE_HT) { g_sched_unknown++; return; }
+    for(int i = 0; i < NTILE; i++) if(vp_in_table[i]) fct(&TL(i), cb_data);
 }
 int parsec_data_release_self_contained_data(parsec_data_t *d) { (void)d; return 0; }
 void parsec_pins_instrument(struct parsec_execution_stream_s *es, PARSEC_PINS_FLAG f, parsec_task_t *t) { (void)es; (void)f; (void)t; }
